@@ -30,13 +30,13 @@ DETERMINISTIC = ["Constant", "Mean", "Sum", "UPGrad", "DualProj", "TrimmedMean",
 
 
 def shards(tier, seed):
-    return split_shards("history", N[tier], 16 if tier == "quick" else 32)
+    return split_shards("history", N[tier], 16 if tier == "quick" else 32) + split_shards("shared_grad_buffer", 96 if tier == "quick" else 30000, 2 if tier == "quick" else 8)
 
 
 def requirements(tier):
     return {"steps_checked": 800, "shadow_bitwise_checked": 1000, "task_param_checked": 250, "alias_checked": 300, "w_grad_recreated_while_caller_holds_the_previous_one": 25,
             "values_unchanged_checked": 400, "repeat_bitwise": 100, "w_create_then_accumulate": 100, "w_accumulate_onto_edited": 80,
-            "w_none_after_non_none": 30, "w_mtl_and_bw_on_common_leaf": 60, "w_autograd_interleaved": 80, "w_fresh_created": 300, "w_non_contiguous_parameter": 50, "w_non_contiguous_grad_assigned": 10, "w_two_losses_with_equal_values": 4}
+            "w_none_after_non_none": 30, "w_mtl_and_bw_on_common_leaf": 60, "w_autograd_interleaved": 80, "w_fresh_created": 300, "w_non_contiguous_parameter": 50, "w_non_contiguous_grad_assigned": 10, "w_two_losses_with_equal_values": 4, "shared_grad_buffer_checked": 60}
 
 
 def gen_agg(rng, m):
@@ -462,10 +462,76 @@ def check_case(case, ctx):
                 "dtype": dname})
 
 
+def gen_shared_buffer(rng, i):
+    """Several requested tensors whose pre-existing .grad is ONE tensor object (tied accumulators, a.grad = b.grad = buf).  backward / mtl_backward add to an existing .grad: the buffer must receive every update."""
+    dtype = "float32" if rng.random() < 0.2 else "float64"
+    shape = list(P.LEAF_SHAPES[rng.integers(len(P.LEAF_SHAPES))])
+    n = int(rng.integers(2, 4))
+    L = [{"shape": shape, "rg": True} for _ in range(n)] + [{"shape": list(P.LEAF_SHAPES[rng.integers(len(P.LEAF_SHAPES))]), "rg": True}]
+    vseed = int(rng.integers(1 << 30))
+    A = P.gen_program(rng, dtype, leaf_descs=L, vseed=vseed)
+    return {"shared_buffer": True, "dtype": dtype, "vseed": vseed, "L": L, "A": A, "n_tied": n, "calls": int(rng.integers(1, 4)),
+            "chunk": [None, 1, 2][int(rng.integers(3))], "wseed": int(rng.integers(1 << 30)), "gseed": int(rng.integers(1 << 30))}
+
+
+def check_shared_buffer(case, ctx):
+    from torchjd import backward
+    dtype = P.DT[case["dtype"]]
+    nt = case["n_tied"]
+
+    def world():
+        leaves = P.make_leaves(case["L"], case["vseed"], dtype)
+        return leaves, P.build(case["A"], leaves=leaves)
+
+    m = sum(o.numel() for o in world()[1].outputs)
+    wts = [float(x) for x in np.round(np.random.default_rng(case["wseed"]).uniform(0.5, 2.0, size=m), 3)]
+    # reference: the same call on a twin whose tied tensors have DISTINCT zero accumulators => the individual updates U_j
+    lv, b = world()
+    for j in range(nt):
+        lv[j].grad = torch.zeros_like(lv[j])
+    backward(b.outputs, aggs.make({"name": "Constant", "weights": wts}, dtype), inputs=lv[:nt], retain_graph=True, parallel_chunk_size=case["chunk"])
+    U = [lv[j].grad.detach().clone() for j in range(nt)]
+    if not all(torch.isfinite(u).all() for u in U):
+        ctx.not_judged("nonfinite_program")
+        return
+    # subject: ONE buffer object installed as the .grad of every tied tensor
+    lv, b = world()
+    buf = torch.tensor(np.random.default_rng(case["gseed"]).standard_normal(tuple(case["L"][0]["shape"])), dtype=torch.float64).to(dtype)
+    start = buf.clone()
+    for j in range(nt):
+        lv[j].grad = buf
+    vio = None
+    for c in range(case["calls"]):
+        try:
+            backward(b.outputs, aggs.make({"name": "Constant", "weights": wts}, dtype), inputs=lv[:nt], retain_graph=True, parallel_chunk_size=case["chunk"])
+        except Exception as e:
+            vio = ("backward_raised", {"error": repr(e)[:300]})
+            break
+        exp = start + (c + 1) * sum(U)
+        scale = aj.max_abs(start) + (c + 1) * sum(aj.max_abs(u) for u in U) + 1.0
+        ctx.count("shared_grad_buffer_checked")
+        if any(lv[j].grad is not buf for j in range(nt)):
+            ctx.count("obs_shared_grad_buffer_replaced")
+        got = [lv[j].grad.detach() for j in range(nt)]
+        err = max(aj.max_abs(g - exp) for g in got)
+        ctx.maximum(f"shared_grad_buffer_{case['dtype']}", err / scale)
+        if err > {"float64": 1e-12, "float32": 1e-5}[case["dtype"]] * scale:
+            vio = ("update_lost_in_a_grad_buffer_shared_by_several_tensors", {"call": c + 1, "buffer_before_first_call": tolist(start), "updates": [tolist(u) for u in U],
+                                                                              "grads_after": [tolist(g) for g in got], "expected": tolist(exp)})
+            break
+    if vio:
+        ctx.violation(vio[0], case, vio[1])
+    ctx.evaluated(fingerprint(case), nontrivial=any(aj.max_abs(u) > 0 for u in U))
+    ctx.sample({"scenario": "one .grad buffer shared by several requested tensors", "tied_tensors": nt, "shape": case["L"][0]["shape"], "calls": case["calls"]})
+
+
 def run_shard(shard, ctx):
     ml = LEN[ctx.tier]
-    run_cases(ctx, shard_rng(ctx.seed, ID, ctx.shard_index), shard["n"], lambda r, i: gen_case(r, i, ml), check_case)
+    if shard["kind"] == "shared_grad_buffer":
+        run_cases(ctx, shard_rng(ctx.seed, ID, ctx.shard_index), shard["n"], gen_shared_buffer, check_shared_buffer)
+    else:
+        run_cases(ctx, shard_rng(ctx.seed, ID, ctx.shard_index), shard["n"], lambda r, i: gen_case(r, i, ml), check_case)
 
 
 def replay(case, ctx):
-    check_case(case, ctx)
+    (check_shared_buffer if case.get("shared_buffer") else check_case)(case, ctx)
